@@ -297,12 +297,41 @@ def it_advance(it):
     return z3.If(bits(it, 2, 0) == 0, BV(0, 8), cat(bits(it, 7, 5), bits(it, 3, 0), BV(0, 1)))
 
 
+def _addr_split(t):
+    """(key, offset): the address term as a multiset of non-numeral summands (identified by term ids, a Concat with
+    constant low bits counted with those bits zeroed) plus a numeral offset -- two addresses with the same key differ
+    by the difference of their offsets.  z3's simplifier does not see Concat(hi, 0b1) == Concat(hi, 0b0) + 1 (the
+    halfword-aligned Thumb PC plus a byte offset)."""
+    parts, off = [], 0
+    stack = [t]
+    while stack:
+        x = stack.pop()
+        if z3.is_bv_value(x):
+            off += x.as_long()
+            continue
+        if z3.is_app(x):
+            k = x.decl().kind()
+            if k == z3.Z3_OP_BADD:
+                stack.extend(x.children())
+                continue
+            if k == z3.Z3_OP_CONCAT:
+                last = x.arg(x.num_args() - 1)
+                if z3.is_bv_value(last) and last.as_long() != 0:
+                    head = [x.arg(i) for i in range(x.num_args() - 1)]
+                    off += last.as_long()
+                    x = z3.Concat(*(head + [z3.BitVecVal(0, last.size())]))
+        parts.append(x.get_id())
+    return tuple(sorted(parts)), off & 0xFFFFFFFF
+
+
 def sel8(arr, a, depth=0):
     """Select(arr, a) with select-over-store resolved syntactically where the index difference is a numeral"""
+    ka, oa = _addr_split(a)
     while True:
         if z3.is_app(arr) and arr.decl().kind() == z3.Z3_OP_STORE:
             base, idx, val = arr.arg(0), arr.arg(1), arr.arg(2)
-            d = z3.simplify(a - idx)
+            ki, oi = _addr_split(idx)
+            d = z3.BitVecVal((oa - oi) & 0xFFFFFFFF, 32) if ka == ki else z3.simplify(a - idx)
             if z3.is_bv_value(d):
                 if d.as_long() == 0:
                     return val
